@@ -80,20 +80,29 @@ def check_layouts(H, out, stats):
             judge(label + " edges", epos, edges)
     mem = H.edges.members(dtype=dict)
     if nodes and all(len(m) for m in mem.values()):
-        pos = {n: np.array([math.cos(1.7 * i) * (i + 1), math.sin(1.7 * i) + 0.3 * i]) for i, n in enumerate(nodes)}
-        stats["n"] += 1
-        try:
-            ep = xgi.edge_positions_from_barycenters(H, pos)
-            if set(ep) != set(edges):
-                out.append(("barycenter", f"edge_positions_from_barycenters keys {list(ep)} != edges {edges}"))
-            else:
-                for e, m in mem.items():
-                    want = np.mean([pos[n] for n in m], axis=0)
-                    if not np.allclose(ep[e], want, atol=1e-12):
-                        out.append(("barycenter", f"edge_positions_from_barycenters[{e!r}] = {ep[e]}, mean of its members {want}"))
-                        break
-        except Exception as e:  # noqa: BLE001
-            out.append(("layout-raises", f"edge_positions_from_barycenters raised {type(e).__name__}: {e}"))
+        # positions as float arrays, as integer grid points (tuples of Python ints, integer arrays) and as float lists
+        variants = {
+            "float arrays": {n: np.array([math.cos(1.7 * i) * (i + 1), math.sin(1.7 * i) + 0.3 * i]) for i, n in enumerate(nodes)},
+            "integer tuples": {n: (i % 3, i // 3) for i, n in enumerate(nodes)},
+            "integer arrays": {n: np.array([2 * i, i * i % 5]) for i, n in enumerate(nodes)},
+            "float lists": {n: [0.5 * i, 1.0 / (i + 1)] for i, n in enumerate(nodes)},
+            "float32 arrays": {n: np.array([i / 3, i % 2], dtype=np.float32) for i, n in enumerate(nodes)},
+        }
+        for vname, pos in variants.items():
+            stats["n"] += 1
+            try:
+                ep = xgi.edge_positions_from_barycenters(H, pos)
+                if set(ep) != set(edges):
+                    out.append(("barycenter", f"edge_positions_from_barycenters keys {list(ep)} != edges {edges}"))
+                else:
+                    for e, m in mem.items():
+                        want = np.mean([np.asarray(pos[n], dtype=float) for n in m], axis=0)
+                        if not np.allclose(np.asarray(ep[e], dtype=float), want, atol=1e-6):
+                            out.append(("barycenter", f"edge_positions_from_barycenters[{e!r}] = {ep[e]} with positions given as "
+                                        f"{vname}; the mean of its members' positions is {want}"))
+                            break
+            except Exception as e:  # noqa: BLE001
+                out.append(("layout-raises", f"edge_positions_from_barycenters (positions as {vname}) raised {type(e).__name__}: {e}"))
 
 
 def check_directed(D, out, stats):
